@@ -3,6 +3,7 @@ C14 — Rule flag parsing accounts for every token or rejects the line.
 `shellquote.Split` is outside the model (the harness tokenises with the real library).
 -/
 import LA.Model.Flags
+import LA.Proofs.FlagsLine
 
 namespace LA.Flags
 open LA LA.Rule
@@ -310,6 +311,48 @@ theorem C14_one_filter_per_flag (args : List Bytes) (fs : FS) (n : Nat)
     fs.filters.length = nFC fs.visited := by
   have := parseLoop_accounting _ _ _ _ _ h
   simpa [nFC] using this
+
+/-- The whole line is reflected. If flags.Parse accepts the tokens, then the token list reads, with
+no token left over, as a list of flag occurrences (`Reads`: each token is a flag with an inline value,
+a flag followed by the token that is its value, a `-D`, or the final `--`), and the rule is built
+from a flag set in which
+* the syscalls are the comma-separated items of all `-S` values, in order, and the keys those of all
+  `-k` values;
+* the filters are exactly one per `-F` / `-C` occurrence, in order, each made of the complete text
+  before, at and after the operator (`C14_filter_complete`, `C14_comparison_complete`);
+* the permissions are the letters of all `-p` values, in order, each one of r, w, x, a;
+* there is at most one `-w`, one `-a` and one `-A` occurrence, and the path, the list and the action
+  are read from its complete value.
+Nothing else contributes and no occurrence is dropped. -/
+theorem C14_whole_line (args : List Bytes) (rule : Rule) (h : parseArgs args = some rule) :
+    ∃ (its : List Item) (fs : FS),
+      Reads args its ∧ applyItems its {} = some fs ∧ finish fs = some rule ∧
+      fs.syscalls = its.flatMap Item.syscalls ∧ fs.keys = its.flatMap Item.keys ∧
+      fs.filters = its.flatMap Item.filters ∧ fs.perms = its.flatMap Item.perms ∧
+      (∀ it ∈ its, it.Ok) ∧
+      ((its.filterMap Item.wval = [] ∧ fs.pathSet = false) ∨ (∃ v, its.filterMap Item.wval = [v] ∧ fs.path = v)) ∧
+      ((its.filterMap Item.aval = [] ∧ fs.append = none) ∨
+        (∃ v, its.filterMap Item.aval = [v] ∧ fs.append = setAdd none v ∧ fs.append.isSome = true)) ∧
+      ((its.filterMap Item.pval = [] ∧ fs.prepend = none) ∨
+        (∃ v, its.filterMap Item.pval = [v] ∧ fs.prepend = setAdd none v ∧ fs.prepend.isSome = true)) := by
+  obtain ⟨fs, hp, hf⟩ := C14_no_positional args rule h
+  obtain ⟨its, hr, ha⟩ := parseLoop_reads _ _ _ _ hp
+  obtain ⟨c1, c2, c3, c4, c5⟩ := applyItems_content its {} fs ha
+  refine ⟨its, fs, hr, ha, hf, by simpa using c1, by simpa using c2, by simpa using c3, by simpa using c4, c5, ?_, ?_, ?_⟩
+  · rcases (applyItems_path its {} fs ha).2 rfl with ⟨e1, _, e3⟩ | ⟨v, e1, e2, _⟩
+    · exact Or.inl ⟨e1, e3⟩
+    · exact Or.inr ⟨v, e1, e2⟩
+  · rcases (applyItems_append its {} fs ha).2 rfl with ⟨e1, e2⟩ | ⟨v, e1, e2, e3⟩
+    · exact Or.inl ⟨e1, e2⟩
+    · exact Or.inr ⟨v, e1, e2, e3⟩
+  · rcases (applyItems_prepend its {} fs ha).2 rfl with ⟨e1, e2⟩ | ⟨v, e1, e2, e3⟩
+    · exact Or.inl ⟨e1, e2⟩
+    · exact Or.inr ⟨v, e1, e2, e3⟩
+
+/-- non-vacuity of `C14_whole_line`: an accepted line with every kind of occurrence. -/
+example : (parseArgs [ofString "-a", ofString "always,exit", ofString "-S", ofString "open, close", ofString "-F",
+    ofString "auid>=1000", ofString "-C", ofString "uid!=euid", ofString "-k=a,b", ofString "--"]).isSome = true := by
+  decide +kernel
 
 /-- non-vacuity: a line that is accepted, and the same line with a stray word. -/
 example : (parseArgs [ofString "-w", ofString "/etc/passwd", ofString "-p", ofString "r"]).isSome = true ∧
